@@ -103,8 +103,13 @@ func TreeHash(repo, inject string) (string, error) {
 }
 
 // Generate builds the overlay for repo into outDir.
-func Generate(repo, inject, outDir string, v Variant) (*Result, error) {
+// Stubs names optional hook files (zz_verif_opt_*.go under inject/pkg) that are to be replaced by their stubs under
+// inject/stubs (same relative path): used when a changed tree no longer has the private names a hook relies on.
+func Generate(repo, inject, outDir string, v Variant, stubs map[string]bool) (*Result, error) {
 	res := &Result{Dir: outDir, Rewrites: map[string]int{}}
+	for name := range stubs {
+		res.Skipped = append(res.Skipped, "optional hook replaced by its stub: "+name)
+	}
 	if err := os.MkdirAll(outDir, 0o755); err != nil {
 		return nil, err
 	}
@@ -132,6 +137,9 @@ func Generate(repo, inject, outDir string, v Variant) (*Result, error) {
 			sub := parts[1]
 			if strings.HasPrefix(sub, "root"+string(filepath.Separator)) {
 				sub = strings.TrimPrefix(sub, "root"+string(filepath.Separator))
+			}
+			if stubs[filepath.Base(p)] {
+				p = filepath.Join(inject, "stubs", parts[1])
 			}
 			replace[filepath.Join(repo, sub)] = p
 		}
